@@ -213,6 +213,20 @@ def evaluate(case: Dict[str, Any]) -> Dict[str, Any]:
                 out["corr"].append(f"B·v: implementation vs Lean dense recursion differ by {float(np.max(np.abs(np.array(hexv(bd)) - a))):.2e}")
             if abs(hexf(th) - mats.theta) > 1e-10 * abs(mats.theta):
                 out["corr"].append("theta differs")
+    if mats.use_factor and not out["prop"]:
+        from lbfgsb.bfgsmats import bmv
+        Minv = mats.invMfactors[0] @ mats.invMfactors[1]
+        vv = rng.standard_normal(Minv.shape[0])
+        gg = drv.run([f"gauss {vshex(Minv)} {vhex(vv)}"])
+        _, x1, x2, piv = gg[0].split(" ")
+        if x1 != x2:
+            out["corr"].append("the list form and the array form of the model's elimination differ")
+        condM = float(np.linalg.cond(Minv))
+        if condM < 1e9:
+            a = np.asarray(bmv(mats.invMfactors, vv), dtype=float)
+            if not np.allclose(np.array(hexv(x1)), a, rtol=0, atol=1e-8 * condM * max(1.0, float(np.max(np.abs(a))))):
+                out["corr"].append(f"middle-matrix product: bmv (triangular factors) vs the model's elimination differ by {float(np.max(np.abs(np.array(hexv(x1)) - a))):.2e}")
+        out["tags"].append(f"theorem_hypothesis_pivots_nonzero={all(p != 0.0 and p == p for p in hexv(piv))}")
     out["tags"] = sorted(set(out["tags"]))
     out["tags"] += [f"far_from_origin={far}", f"n<={4 * ((n + 3) // 4)}", f"maxcor={maxcor}", f"rejected={nrej > 0}", f"filled={nacc > maxcor}"]
     if nacc >= 2 and nrej >= 1:
